@@ -44,6 +44,7 @@ fn ftrl_prob_check(ctx: &mut Ctx, class: &str, step: usize, z: &[f64], n: &[f64]
         if (v.abs() - 35.0).abs() <= noise {
             continue;
         }
+        tag(if v.abs() > 35.0 { "ok:ftrl:prob_judged:clamped" } else { "ok:ftrl:prob_judged:inside" });
         let want = sigmoid35(v);
         let rel = 2.5e-7 + 4.0 * unit + if v.abs() < 35.0 { 2.0 * noise } else { 0.0 };
         let g = got[i] as f64;
@@ -65,6 +66,13 @@ fn ftrl_expect(z: &[f64], n: &[f64], hp: &[f64; 4], probs: &[f32], xs: &Rows, ys
 }
 fn zero_check(ctx: &mut Ctx, class: &str, what: &str, step: usize, z: &[f64], w: &[f64], hp: &[f64; 4]) {
     for j in 0..z.len() {
+        tag(if z[j].abs() == hp[2] {
+            "ok:ftrl:weight_judged:on_l1"
+        } else if z[j].abs() < hp[2] {
+            "ok:ftrl:weight_judged:below_l1"
+        } else {
+            "ok:ftrl:weight_judged:above_l1"
+        });
         ctx.require((w[j] == 0.0) == (z[j].abs() <= hp[2]), "zero_iff_within_l1", class, || format!("step {} ({}): coordinate {}: z {} l1 {} weight {}", step, what, j, z[j], hp[2], w[j]));
     }
 }
@@ -101,7 +109,7 @@ fn op_ftrl_update(em: &mut Em, hp: [f64; 4], z: &[f64], n: &[f64], probs: &[f32]
         list2(xs.iter().map(|x| x.iter()), |x| hex64(*x)),
         list(ys.iter(), |x| (*x as u8).to_string())
     );
-    em.case_valid(op, "ftrl_update", |ctx| {
+    case_t(em, op, "ftrl_update", |ctx| {
         let mut m = ftrl_from_state(&hp, z, n);
         // the weights of the start state itself (|z| exactly on the l1 threshold included)
         let w0 = m.get_weights().to_vec();
@@ -109,6 +117,7 @@ fn op_ftrl_update(em: &mut Em, hp: [f64; 4], z: &[f64], n: &[f64], probs: &[f32]
         let ds = mk_bool_ds(xs, ys, p);
         let pr: Array1<Pr> = Array1::from(probs.iter().map(|x| Pr::new(*x)).collect::<Vec<_>>());
         m.update(&ds, pr.view());
+        tag("ok:ftrl_update:updated");
         ftrl_checks(ctx, "ftrl_update", 0, &m, &hp, z, n, probs, xs, ys);
         format!("ok w0={} {}", list(w0.iter(), |x| tf(*x)), show_ftrl(&m))
     });
@@ -128,7 +137,7 @@ fn op_ftrl_pred(em: &mut Em, hp: [f64; 4], z: &[f64], n: &[f64], xs: &Rows) {
             "ftrl:logit_inside"
         });
     }
-    em.case_valid(op, "ftrl_pred", |ctx| {
+    case_t(em, op, "ftrl_pred", |ctx| {
         let m = ftrl_from_state(&hp, z, n);
         let got: Vec<f32> = m.predict(&arr2(xs, p)).iter().map(|pr| **pr).collect();
         ftrl_prob_check(ctx, "ftrl_pred", 0, z, n, &hp, xs, &got, 1.2e-16);
@@ -147,7 +156,7 @@ fn op_ftrl_fit(em: &mut Em, hp: [f64; 4], seed: u64, p: usize, batches: &[(Rows,
         list3(batches.iter().map(|(r, _)| r.iter().map(|x| x.iter())), |x| hex64(*x)),
         list2(batches.iter().map(|(_, l)| l.iter()), |x| (*x as u8).to_string())
     );
-    em.case_valid(op, "ftrl_fit", |ctx| {
+    case_t(em, op, "ftrl_fit", |ctx| {
         ctx.require(z0.iter().all(|v| (0.0..1.0).contains(v)), "function_of_history", "ftrl_fit", || format!("initial z {:?} is not drawn from [0, 1)", z0));
         let mut model: Option<Ftrl<f64>> = None;
         let mut parts = vec![];
@@ -161,6 +170,7 @@ fn op_ftrl_fit(em: &mut Em, hp: [f64; 4], seed: u64, p: usize, batches: &[(Rows,
             let probs: Vec<f32> = prev.predict(&arr2(xs, p)).iter().map(|pr| **pr).collect();
             ftrl_prob_check(ctx, "ftrl_fit", i, &z, &n, &hp, xs, &probs, 1.2e-16);
             let m = params.fit_with(model.take(), &ds).expect("fit_with");
+            tag("ok:ftrl_fit:batch_fitted");
             ftrl_checks(ctx, "ftrl_fit", i, &m, &hp, &z, &n, &probs, xs, ys);
             z = m.z().to_vec();
             n = m.n().to_vec();
@@ -183,6 +193,7 @@ fn op_ftrl_fit(em: &mut Em, hp: [f64; 4], seed: u64, p: usize, batches: &[(Rows,
             let ds = DatasetView::new(mk_view(&store, p, 2), ystore.slice(s![..;2]));
             viewed = Some(params.fit_with(viewed.take(), &ds).expect("fit_with on a view"));
         }
+        tag("ok:ftrl_fit:strided_view_fitted");
         let v = viewed.unwrap();
         ctx.require(near_v(&v.z().to_vec(), &b.z().to_vec(), 1e-12) && near_v(&v.n().to_vec(), &b.n().to_vec(), 1e-12), "function_of_history", "ftrl_fit:strided_view", || format!("the history fed through strided views ends in z {:?} n {:?} instead of z {:?} n {:?}", v.z(), v.n(), b.z(), b.n()));
         format!("ok {}", parts.join(" "))
@@ -204,7 +215,7 @@ fn op_ftrl_f32(em: &mut Em, hp: [f64; 4], z: &[f64], n: &[f64], probs: &[f32], x
         list(ys.iter(), |x| (*x as u8).to_string()),
         list2(wide.iter().map(|x| x.iter()), |x| hex64(*x))
     );
-    em.case_valid(op, "ftrl_f32", |ctx| {
+    case_t(em, op, "ftrl_f32", |ctx| {
         let hp32: [f64; 4] = [hp[0] as f32 as f64, hp[1] as f32 as f64, hp[2] as f32 as f64, hp[3] as f32 as f64];
         let arr = |v: &[f64]| serde_json::json!({"v": 1, "dim": [v.len()], "data": v});
         let mut m: Ftrl<f32> = serde_json::from_value(serde_json::json!({"alpha": hp[0], "beta": hp[1], "l1_ratio": hp[2], "l2_ratio": hp[3], "z": arr(z), "n": arr(n)})).expect("Ftrl<f32> deserialises");
@@ -217,6 +228,7 @@ fn op_ftrl_f32(em: &mut Em, hp: [f64; 4], z: &[f64], n: &[f64], probs: &[f32], x
         let ds = Dataset::new(a32(xs), Array1::from(ys.to_vec()));
         let pr: Array1<Pr> = Array1::from(probs.iter().map(|x| Pr::new(*x)).collect::<Vec<_>>());
         m.update(&ds, pr.view());
+        tag("ok:ftrl_f32:updated");
         let (wz, wn) = ftrl_expect(z, n, &hp32, probs, xs, ys);
         let (gz, gn): (Vec<f64>, Vec<f64>) = (m.z().iter().map(|v| *v as f64).collect(), m.n().iter().map(|v| *v as f64).collect());
         ctx.require(near_v(&gz, &wz, 2e-5) && near_v(&gn, &wn, 2e-5), "recurrence", "ftrl_f32", || format!("z {:?} n {:?}, recurrence gives z {:?} n {:?}", gz, gn, wz, wn));
